@@ -320,7 +320,7 @@ type Style struct {
 	DirCase  int   `json:"dc,omitempty"` // 0 SecRule, 1 secrule, 2 SECRULE
 	ActCase  int   `json:"ac,omitempty"` // 0 msg, 1 MSG, 2 Msg
 	Quote    int   `json:"qu,omitempty"` // 0 values quoted only where needed, 1 every value quoted
-	CommaSp  int   `json:"cs,omitempty"` // 0 "a,b", 1 "a, b"
+	CommaSp  int   `json:"cs,omitempty"` // 0 "a,b", 1 "a, b", 2 "a ,b" with a blank after the action colon and before a continuation backslash
 	Cont     []int `json:"ct,omitempty"` // token boundaries carrying a line continuation
 	Indent   int   `json:"in,omitempty"` // 0 none, 1 first line indented with spaces, continuation lines with tab+spaces
 	CRLF     bool  `json:"crlf,omitempty"`
@@ -575,14 +575,20 @@ func renderRule(d Desc, st Style) (string, []Delim) {
 	w.delim("actions-open-dquote", "\"")
 	for i, a := range d.Actions {
 		if i > 0 {
+			if st.CommaSp == 2 {
+				w.text(" ")
+			}
 			w.delim("action-comma", ",")
 			if st.has(boundary) {
+				if st.CommaSp == 2 {
+					w.text(" ")
+				}
 				w.delim("continuation-backslash", "\\")
 				w.delim("continuation-newline", "\n")
 				if st.Indent != 0 {
 					w.text(contIndent)
 				}
-			} else if st.CommaSp != 0 {
+			} else if st.CommaSp == 1 {
 				w.text(" ")
 			}
 			boundary++
@@ -592,6 +598,9 @@ func renderRule(d Desc, st Style) (string, []Delim) {
 			continue
 		}
 		w.delim("action-colon", ":")
+		if st.CommaSp == 2 {
+			w.text(" ")
+		}
 		if st.Quote != 0 || needsQuote(a.Value) {
 			w.delim("value-open-squote", "'")
 			for j := 0; j < len(a.Value); j++ {
@@ -654,7 +663,7 @@ func clip(s string) string {
 	return fmt.Sprintf("%q", s)
 }
 
-const commentBlock = "# a comment, with \"quotes\", 'quotes' and a colon: here\n\n   # an indented comment\n"
+const commentBlock = "# a comment, with \"quotes\", 'quotes' and a colon: here\n\n   # an indented comment\n# a comment whose last character is a backslash \\\n"
 
 // renderConfig writes the whole configuration around ruleText (the rule under
 // test, already rendered): engine switch, the rule, the sentinel rule.
